@@ -35,6 +35,8 @@ pub mod sampling_adjustment;
 pub mod sql;
 pub mod synthetic_data;
 pub mod types;
+#[cfg(feature = "verif-hooks")]
+pub mod verif_hooks;
 pub mod visitor;
 
 pub use builder::{Ready, With, WithContext, WithIterator, WithoutContext};
